@@ -28,11 +28,12 @@ META = {
     "text": "Machine-checked theorems about a function-by-function Gallina model of execute_one_step / execute_compound_statement / "
             "execute_if|while|for_statement with statement_positions, YieldException.is_from_loop, current_statement_index, auto_yield and "
             "the task-scope copy: for every body whose yields and loops sit at the top level of the body (loop bodies and branches free of "
-            "yields and loops, except one trailing yield in a while body; loop variables hygienic), every argument list, every await oracle and every number of step grants, the "
+            "yields and loops, except one trailing yield in a while body; loop variables are not parameters), every argument list, every await oracle and every number of step grants, the "
             "concatenated step outputs, the result and the locals equal the body run alone; the statement index never decreases and moves "
             "by at most one; the resume table is empty between steps; the await data path returns int/long/bool, string and struct/Option/"
-            "Result values unchanged. The general law is refuted on the faithful model by five witnesses (yield in a block, yield in a loop "
-            "body, loop in a branch, nested loops, reused loop variable) and the enum data path by a sixth; all are confirmed on the binary "
+            "Result values unchanged. The general law is refuted on the faithful model by four witnesses (yield in a block, yield in a loop "
+            "body, loop in a branch, nested loops) and the enum data path by a fifth (the reused-loop-variable defect was repaired in /repo, "
+            "fix 4fa4431, and the model mirrors the repair); all are confirmed on the binary "
             "and recorded as known findings. The model is tied to the code on every run: generated task sets (1-4 roots, nested awaits, "
             "yields/awaits/returns at every position of nested blocks, branches and loops, exhaustive small skeletons + random) are run on "
             "the real interpreter with the scheduler trace, and every task's step sequence and every awaited value must equal the extracted model.",
@@ -174,7 +175,6 @@ def contains(ss, kinds):
 def shape_flags(body):
     """Which known-defect shapes a body has (syntactic; see known_findings/C14.json)."""
     fl = set()
-    forvars = []
     for s in body:
         k = s[0]
         if k in ("blk", "if"):
@@ -190,11 +190,6 @@ def shape_flags(body):
                 fl.add("yield-in-loop")
             if contains(b, ("while", "for")):
                 fl.add("nested-loop")
-    for s, _, _ in walk(body):
-        if s[0] == "for":
-            if s[1] in forvars:
-                fl.add("for-var-reuse")
-            forvars.append(s[1])
     return fl
 
 
@@ -223,7 +218,7 @@ class Gen:
         self.k = 0
         self.nfor = 0
         self.p_yield, self.p_await, self.fragment = p_yield, p_await, fragment
-        self.reuse_for = (not fragment) and rng.random() < 0.15
+        self.reuse_for = rng.random() < 0.3          # consecutive `for (int i ...)` loops over one name
 
     def emit(self, vars_):
         self.k += 1
